@@ -1,4 +1,5 @@
 import FpVerif.Lemmas.IterTerm
+import FpVerif.Lemmas.IterPulled
 import FpVerif.Spec.C12
 /-!
 # C20 — Iterator protocol is sound; Duplicate/Span/Partition survive any pull order
@@ -10,6 +11,11 @@ list, in order, `HasNext` is idempotent and non-consuming, `Next` on the exhaust
 panics and keeps panicking), the zero value, and the two-sided iterators of
 `Duplicate`/`Span`/`Partition` under EVERY interleaving of the four calls.  The last section lifts
 all of it over the pipeline AST `Pipe` ("for every iterator the library returns"): `pipe_*`.
+
+Pull counts (AUDITFIX-B, audit finding 19): `duplicate_pulls_once` / `duplicate_source_pulled_once`
+(Duplicate), `span_source_pulled_exactly` / `span_pulls_exactly` (Span) and
+`partition_source_pulled_exactly` / `partition_pulls_exactly` (Partition): after ANY interleaving the
+shared source has delivered EXACTLY `max (consumed by left) (consumed by right)` elements.
 
 Callbacks are arbitrary logging, non-panicking Go functions (`Total p g`: `p` returns `g a`
 whatever the log is); element types, lists, scripts and logs are universally quantified.
@@ -219,24 +225,201 @@ theorem partition_any_interleaving (p : α → GoM Bool) (g : α → Bool) (hp :
       by simp [FilterInvF, FilterInv, hfuel]⟩
   exact ⟨hL, hR⟩
 
-/-- In `Span` and `Partition` too the shared source is pulled only through `Duplicate`'s queue:
-    after any interleaving the instrumented source has handed out at most `xs.length` elements,
-    i.e. no element twice (instance for `Span`). -/
+/-! ### how many elements `Span` / `Partition` pull from the shared source
+
+(AUDITFIX-B, audit finding 19: the former `span_pulls_at_most_once` only said `counter ≤ xs.length`,
+which is true of EVERY state of the slice source.)  Both sides of `Span` / `Partition` read the source
+through the two ends of ONE `Duplicate`; the source therefore has delivered EXACTLY the elements
+consumed by the side that is further ahead: `n = max cL cR`, where `cL` / `cR` are the numbers of
+elements the left / right combinator has consumed so far — stated in terms of the combinators'
+captured variables and of what the client has observed (`TakeWhileSt.look`, `DropWhilePulled`,
+`FilterPulled` in `Lemmas/IterPulled.lean`).  No element is pulled twice, none that neither side
+needed, none is withheld. -/
+
+/-- `Span(r, p)`, any source, any interleaving: the shared source iterator has delivered exactly
+    the first `n = max cL cR` elements of `l` and will deliver exactly the others, where
+    * `cL = gotL + look`: the left side (`TakeWhile`) has consumed what it has delivered (`gotL`
+      elements of `takeWhile p l`) plus the one element it holds (parked by `HasNext`, or the first
+      failing element, which had to be pulled to be tested);
+    * `cR` is what the right side (`DropWhile`) has consumed: once it has found the first failing
+      element, `cR + |rest of the right side| = |l|` (`+ 1` while that element is parked in
+      `first`); before that, the right side's rest is `dropWhile p (l.drop cR)`. -/
+theorem span_source_pulled_exactly (p : α → GoM Bool) (g : α → Bool) (hp : Total p g)
+    (m : Machine σ α) (s : σ) (l : List α) (h : Represents m s [] l) (fuel : Nat) (hfuel : l.length < fuel)
+    (cs : List Call2) (lg : Log) :
+    let fin := runScript2 (spanLeft p m) (spanRight fuel p m) cs ((s, {}), {}, {}) lg
+    let restL := specRest (Call2.leftPart cs) (l.takeWhile g)
+    let restR := specRest (Call2.rightPart cs) (l.dropWhile g)
+    let gotL := (l.takeWhile g).length - restL.length
+    ∃ cR, DropWhilePulled g l fin.2.1.2.2 cR restR ∧
+      gotL + fin.2.1.2.1.look ≤ l.length ∧
+      Represents m fin.2.1.1.1 (l.take (Nat.max (gotL + fin.2.1.2.1.look) cR))
+        (l.drop (Nat.max (gotL + fin.2.1.2.1.look) cR)) := by
+  intro fin restL restR gotL
+  have hS : Sim m (fun s d r => Represents m s d r ∧ d ++ r = l) := (Represents.sim m).withTotal l
+  have h2 := sides_sim2 (dup_sim2 hS)
+    (cL := takeWhile p (dupLeft m)) (IL := TakeWhileInv g) (fun R hR => takeWhile_sim hp hR)
+    (cR := dropWhile fuel p (dupRight m)) (IR := DropWhileInv fuel g) (fun R hR => dropWhile_sim hp fuel hR)
+  obtain ⟨s', lg', dL', dR', e, _, _, ⟨dL, rL, dR, rR, hdup, hIL, hIR⟩, hdL', _⟩ :=
+    runScript2_sim h2 cs ((s, {}), {}, {}) [] (l.takeWhile g) [] (l.dropWhile g) lg
+    ⟨[], l, [], l, ⟨[], l, ⟨h, rfl⟩, by simp [DupInv]⟩, by simp [TakeWhileInv], by simp [DropWhileInv, hfuel]⟩
+  have hfin : fin.2.1 = s' := by
+    show (runScript2 (spanLeft p m) (spanRight fuel p m) cs ((s, {}), {}, {}) lg).2.1 = s'
+    simp only [spanLeft, spanRight]; rw [e]
+  rw [hfin]
+  obtain ⟨d, r, ⟨hRep, hdr⟩, hmax, hl1, hl2⟩ := dupRel_max hdup
+  have hgot : dL'.length = gotL := by
+    have := congrArg List.length hdL'; simp only [gotL, restL]; simp at this; omega
+  have hcL : dL.length = gotL + s'.2.1.look := by rw [← hgot]; exact hIL.consumed
+  have hlenL : dL.length ≤ l.length := by
+    have := congrArg List.length (hl1.symm.trans hdr); simp at this; omega
+  refine ⟨dR.length, hIR.pulled (hl2.symm.trans hdr), by omega, ?_⟩
+  rw [← hcL, ← hmax]
+  obtain ⟨h1, h2'⟩ := take_drop_of_append hdr
+  rw [← h1, ← h2']
+  exact hRep
+
+/-- the same on the instrumented slice source, whose state IS its pull counter: the counter equals
+    `max cL cR` exactly -/
+theorem span_pulls_exactly (p : α → GoM Bool) (g : α → Bool) (hp : Total p g)
+    (tag : Option (α → Event)) (xs : List α) (fuel : Nat) (hfuel : xs.length < fuel)
+    (cs : List Call2) (lg : Log) :
+    let fin := runScript2 (spanLeft p (ofSeq tag xs)) (spanRight fuel p (ofSeq tag xs)) cs ((0, {}), {}, {}) lg
+    let restL := specRest (Call2.leftPart cs) (xs.takeWhile g)
+    let restR := specRest (Call2.rightPart cs) (xs.dropWhile g)
+    let gotL := (xs.takeWhile g).length - restL.length
+    ∃ cR, DropWhilePulled g xs fin.2.1.2.2 cR restR ∧
+      fin.2.1.1.1 = Nat.max (gotL + fin.2.1.2.1.look) cR := by
+  intro fin restL restR gotL
+  have h2 := sides_sim2 (dup_sim2 ((ofSeq_sim tag xs).withTotal xs))
+    (cL := takeWhile p (dupLeft (ofSeq tag xs))) (IL := TakeWhileInv g) (fun R hR => takeWhile_sim hp hR)
+    (cR := dropWhile fuel p (dupRight (ofSeq tag xs))) (IR := DropWhileInv fuel g)
+    (fun R hR => dropWhile_sim hp fuel hR)
+  obtain ⟨s', lg', dL', dR', e, _, _, ⟨dL, rL, dR, rR, hdup, hIL, hIR⟩, hdL', _⟩ :=
+    runScript2_sim h2 cs (((0 : Nat), {}), {}, {}) [] (xs.takeWhile g) [] (xs.dropWhile g) lg
+    ⟨[], xs, [], xs, ⟨[], xs, ⟨⟨by simp, by simp, by simp⟩, rfl⟩, by simp [DupInv]⟩, by simp [TakeWhileInv],
+      by simp [DropWhileInv, hfuel]⟩
+  have hfin : fin.2.1 = s' := by
+    show (runScript2 (spanLeft p (ofSeq tag xs)) (spanRight fuel p (ofSeq tag xs)) cs ((0, {}), {}, {}) lg).2.1 = s'
+    simp only [spanLeft, spanRight]; rw [e]
+  rw [hfin]
+  obtain ⟨d, r, ⟨⟨hle, hd, _⟩, hdr⟩, hmax, hl1, hl2⟩ := dupRel_max hdup
+  have hgot : dL'.length = gotL := by
+    have := congrArg List.length hdL'; simp only [gotL, restL]; simp at this; omega
+  have hcL : dL.length = gotL + s'.2.1.look := by rw [← hgot]; exact hIL.consumed
+  refine ⟨dR.length, hIR.pulled (hl2.symm.trans hdr), ?_⟩
+  rw [← hcL, ← hmax, hd]; simp; omega
+
+/-- (old name, now a corollary) the instrumented source has handed out at most `xs.length`
+    elements.  NOTE (audit finding 19): this bound alone holds in every state of the slice source;
+    the real pull-count statement is `span_pulls_exactly` / `span_source_pulled_exactly`. -/
 theorem span_pulls_at_most_once (p : α → GoM Bool) (g : α → Bool) (hp : Total p g)
     (tag : Option (α → Event)) (xs : List α) (fuel : Nat) (hfuel : xs.length < fuel)
     (cs : List Call2) (lg : Log) :
     (runScript2 (spanLeft p (ofSeq tag xs)) (spanRight fuel p (ofSeq tag xs)) cs ((0, {}), {}, {}) lg).2.1.1.1
       ≤ xs.length := by
-  have h2 := sides_sim2 (dup_sim2 (ofSeq_sim tag xs))
-    (cL := takeWhile p (dupLeft (ofSeq tag xs))) (IL := TakeWhileInv g) (fun R hR => takeWhile_sim hp hR)
-    (cR := dropWhile fuel p (dupRight (ofSeq tag xs))) (IR := DropWhileInv fuel g)
-    (fun R hR => dropWhile_sim hp fuel hR)
-  obtain ⟨s', lg', _, _, e, _, _, ⟨_, _, _, _, ⟨d, r, ⟨hle, _, _⟩, _⟩, _, _⟩, _, _⟩ :=
-    runScript2_sim h2 cs (((0 : Nat), {}), {}, {}) [] (xs.takeWhile g) [] (xs.dropWhile g) lg
-    ⟨[], xs, [], xs, ⟨[], xs, ⟨by simp, by simp, by simp⟩, by simp [DupInv]⟩, by simp [TakeWhileInv],
-      by simp [DropWhileInv, hfuel]⟩
-  simp only [spanLeft, spanRight]
-  rw [e]; exact hle
+  obtain ⟨cR, hR, hc⟩ := span_pulls_exactly p g hp tag xs fuel hfuel cs lg
+  obtain ⟨cR', hR', hle, _⟩ := span_source_pulled_exactly p g hp (ofSeq tag xs) 0 xs
+    ⟨_, ofSeq_sim tag xs, by simp [ofSeqRel]⟩ fuel hfuel cs lg
+  rw [hc]
+  exact Nat.max_le.mpr ⟨hle, hR.1⟩
+
+/-- `Partition(r, p)`, any source, any interleaving: the shared source has delivered exactly the
+    first `n = max cL cR` elements of `l`, where `cL` (`cR`) is what the left `Filter p` (right
+    `FilterNot p`) has consumed: nothing before its first `HasNext`; then the shortest prefix of `l`
+    containing one matching element more than that side has delivered (it sits on that element);
+    or all of `l` once it has run off the end. -/
+theorem partition_source_pulled_exactly (p : α → GoM Bool) (g : α → Bool) (hp : Total p g)
+    (m : Machine σ α) (s : σ) (l : List α) (h : Represents m s [] l) (fuel : Nat) (hfuel : l.length < fuel)
+    (cs : List Call2) (lg : Log) :
+    let fin := runScript2 (partitionLeft fuel p m) (partitionRight fuel p m) cs ((s, {}), {}, {}) lg
+    let restL := specRest (Call2.leftPart cs) (l.filter g)
+    let restR := specRest (Call2.rightPart cs) (l.filter (fun x => !g x))
+    ∃ cL cR dL' dR', dL' ++ restL = l.filter g ∧ dR' ++ restR = l.filter (fun x => !g x) ∧
+      FilterPulled g l fin.2.1.2.1 cL dL' ∧ FilterPulled (fun x => !g x) l fin.2.1.2.2 cR dR' ∧
+      Represents m fin.2.1.1.1 (l.take (Nat.max cL cR)) (l.drop (Nat.max cL cR)) := by
+  intro fin restL restR
+  have hnp : Total (fun t => do let b ← p t; pure (!b)) (fun x => !g x) := total_bind_pure hp (fun b => !b)
+  have hS : Sim m (fun s d r => Represents m s d r ∧ d ++ r = l) := (Represents.sim m).withTotal l
+  have h2 := sides_sim2 (dup_sim2 hS)
+    (cL := filter fuel p (dupLeft m)) (IL := FilterInvF fuel g) (fun R hR => filter_sim hp fuel hR)
+    (cR := filterNot fuel p (dupRight m)) (IR := FilterInvF fuel (fun x => !g x))
+    (fun R hR => filter_sim hnp fuel hR)
+  obtain ⟨s', lg', dL', dR', e, _, _, ⟨dL, rL, dR, rR, hdup, hIL, hIR⟩, hdL', hdR'⟩ :=
+    runScript2_sim h2 cs ((s, {}), {}, {}) [] (l.filter g) [] (l.filter (fun x => !g x)) lg
+    ⟨[], l, [], l, ⟨[], l, ⟨h, rfl⟩, by simp [DupInv]⟩, by simp [FilterInvF, FilterInv, hfuel],
+      by simp [FilterInvF, FilterInv, hfuel]⟩
+  have hfin : fin.2.1 = s' := by
+    show (runScript2 (partitionLeft fuel p m) (partitionRight fuel p m) cs ((s, {}), {}, {}) lg).2.1 = s'
+    simp only [partitionLeft, partitionRight]; rw [e]
+  rw [hfin]
+  obtain ⟨d, r, ⟨hRep, hdr⟩, hmax, hl1, hl2⟩ := dupRel_max hdup
+  refine ⟨dL.length, dR.length, dL', dR', by simpa using hdL', by simpa using hdR',
+    hIL.2.pulled (hl1.symm.trans hdr), hIR.2.pulled (hl2.symm.trans hdr), ?_⟩
+  rw [← hmax]
+  obtain ⟨h1, h2'⟩ := take_drop_of_append hdr
+  rw [← h1, ← h2']
+  exact hRep
+
+/-- on the instrumented slice source: the pull counter is exactly `max cL cR` -/
+theorem partition_pulls_exactly (p : α → GoM Bool) (g : α → Bool) (hp : Total p g)
+    (tag : Option (α → Event)) (xs : List α) (fuel : Nat) (hfuel : xs.length < fuel)
+    (cs : List Call2) (lg : Log) :
+    let fin := runScript2 (partitionLeft fuel p (ofSeq tag xs)) (partitionRight fuel p (ofSeq tag xs)) cs
+      ((0, {}), {}, {}) lg
+    let restL := specRest (Call2.leftPart cs) (xs.filter g)
+    let restR := specRest (Call2.rightPart cs) (xs.filter (fun x => !g x))
+    ∃ cL cR dL' dR', dL' ++ restL = xs.filter g ∧ dR' ++ restR = xs.filter (fun x => !g x) ∧
+      FilterPulled g xs fin.2.1.2.1 cL dL' ∧ FilterPulled (fun x => !g x) xs fin.2.1.2.2 cR dR' ∧
+      fin.2.1.1.1 = Nat.max cL cR := by
+  intro fin restL restR
+  have hnp : Total (fun t => do let b ← p t; pure (!b)) (fun x => !g x) := total_bind_pure hp (fun b => !b)
+  have h2 := sides_sim2 (dup_sim2 ((ofSeq_sim tag xs).withTotal xs))
+    (cL := filter fuel p (dupLeft (ofSeq tag xs))) (IL := FilterInvF fuel g) (fun R hR => filter_sim hp fuel hR)
+    (cR := filterNot fuel p (dupRight (ofSeq tag xs))) (IR := FilterInvF fuel (fun x => !g x))
+    (fun R hR => filter_sim hnp fuel hR)
+  obtain ⟨s', lg', dL', dR', e, _, _, ⟨dL, rL, dR, rR, hdup, hIL, hIR⟩, hdL', hdR'⟩ :=
+    runScript2_sim h2 cs (((0 : Nat), {}), {}, {}) [] (xs.filter g) [] (xs.filter (fun x => !g x)) lg
+    ⟨[], xs, [], xs, ⟨[], xs, ⟨⟨by simp, by simp, by simp⟩, rfl⟩, by simp [DupInv]⟩,
+      by simp [FilterInvF, FilterInv, hfuel], by simp [FilterInvF, FilterInv, hfuel]⟩
+  have hfin : fin.2.1 = s' := by
+    show (runScript2 (partitionLeft fuel p (ofSeq tag xs)) (partitionRight fuel p (ofSeq tag xs)) cs
+      ((0, {}), {}, {}) lg).2.1 = s'
+    simp only [partitionLeft, partitionRight]; rw [e]
+  rw [hfin]
+  obtain ⟨d, r, ⟨⟨hle, hd, _⟩, hdr⟩, hmax, hl1, hl2⟩ := dupRel_max hdup
+  refine ⟨dL.length, dR.length, dL', dR', by simpa using hdL', by simpa using hdR',
+    hIL.2.pulled (hl1.symm.trans hdr), hIR.2.pulled (hl2.symm.trans hdr), ?_⟩
+  rw [← hmax, hd]; simp; omega
+
+/-- `Partition`: never more pulls than elements (the weak bound, as a corollary) -/
+theorem partition_pulls_at_most_once (p : α → GoM Bool) (g : α → Bool) (hp : Total p g)
+    (tag : Option (α → Event)) (xs : List α) (fuel : Nat) (hfuel : xs.length < fuel)
+    (cs : List Call2) (lg : Log) :
+    (runScript2 (partitionLeft fuel p (ofSeq tag xs)) (partitionRight fuel p (ofSeq tag xs)) cs
+      ((0, {}), {}, {}) lg).2.1.1.1 ≤ xs.length := by
+  obtain ⟨cL, cR, _, _, _, _, hL, hR, hc⟩ := partition_pulls_exactly p g hp tag xs fuel hfuel cs lg
+  rw [hc]
+  exact Nat.max_le.mpr ⟨hL.1, hR.1⟩
+
+/-- the exact statements are not the trivial bound: on `[1,2,3,4]` with `p = (< 3)`, after `LH` (left
+    `HasNext`: one element pulled and parked) the source counter is 1 — not 0, not 4; after `RH`
+    (right `HasNext`, which must skip 1, 2 and find 3) it is 3; `Partition` by evenness after `LH`
+    (the left `Filter` runs to the first even element): 2. -/
+example :
+    (runScript2 (spanLeft (fun x : Nat => pure (x < 3)) (ofSeq none [1, 2, 3, 4]))
+      (spanRight 10 (fun x : Nat => pure (x < 3)) (ofSeq none [1, 2, 3, 4])) [.LH] ((0, {}), {}, {}) []).2.1.1.1 = 1 := by
+  decide
+
+example :
+    (runScript2 (spanLeft (fun x : Nat => pure (x < 3)) (ofSeq none [1, 2, 3, 4]))
+      (spanRight 10 (fun x : Nat => pure (x < 3)) (ofSeq none [1, 2, 3, 4])) [.RH] ((0, {}), {}, {}) []).2.1.1.1 = 3 := by
+  decide
+
+example :
+    (runScript2 (partitionLeft 10 (fun x : Nat => pure (x % 2 == 0)) (ofSeq none [1, 2, 3, 4]))
+      (partitionRight 10 (fun x : Nat => pure (x % 2 == 0)) (ofSeq none [1, 2, 3, 4])) [.LH] ((0, {}), {}, {}) []).2.1.1.1 = 2 := by
+  decide
 
 /-! ## every iterator the library returns: quantifying over the pipeline AST
 
